@@ -377,7 +377,16 @@ structure AuthzSpec where
   chals : List ChalType
   deriving Repr, DecidableEq
 
+/-- the wildcard flag newAuthorization sets: since /repo 77ebdfa only a dns name has a wildcard form
+    (before, a leading `*.` was stripped from identifiers of every type: `pid_wildcard_unbacked_historic`) -/
+def wildcardOf (id : Identifier) : Bool := id.typ == .dns && isWildcard id.value
+
 def newAuthorization (enabled : List ChalType) (id : Identifier) : AuthzSpec :=
+  { typ := id.typ, value := if wildcardOf id then id.value.drop 2 else id.value, wildcard := wildcardOf id,
+    chals := (challengeTypes id.typ (wildcardOf id)).filter (enabled.contains ·) }
+
+/-- newAuthorization as it was before /repo 77ebdfa -/
+def newAuthorizationHistoric (enabled : List ChalType) (id : Identifier) : AuthzSpec :=
   { typ := id.typ, value := trimIfWildcard id.value, wildcard := isWildcard id.value,
     chals := (challengeTypes id.typ (isWildcard id.value)).filter (enabled.contains ·) }
 
